@@ -85,6 +85,7 @@ pub fn check_c08(ctx: &Ctx, sc: &SeqCase, st: &mut Stats) -> Result<(), Fail> {
     let mut back_to_back = false;
     let mut calls = 0usize;
     let mut last_digest = 0u64;
+    let mut last_unseeded: Option<Vec<u8>> = None;
     for (i, op) in sc.ops.iter().enumerate() {
         let Some(e) = entropy_of(&sc.base, op) else {
             if matches!(op, Op::TakeOutput) {
@@ -97,8 +98,28 @@ pub fn check_c08(ctx: &Ctx, sc: &SeqCase, st: &mut Stats) -> Result<(), Fail> {
         };
         let got = call_gen(&mut g, &e);
         if sc.unseeded && matches!(op, Op::Generate) {
-            // OS-seeded: legitimately different every time; it still is part of the history
+            // OS-seeded: legitimately different every time; it still is part of the history. "Different every
+            // time" is itself what a fresh generator does: every call draws a new seed from the OS, so two such
+            // outputs of at least 24 body opcodes each coincide with probability < 1e-20
             calls_since_reset += 1;
+            if let Ok(o) = &got {
+                if sc.base.min_opcodes >= 24 {
+                    if let Some(prev) = &last_unseeded {
+                        if prev == o {
+                            return ctx.fail(
+                                st,
+                                Fail::new(
+                                    "reuse:generate:unseeded-repeats",
+                                    format!("call #{}: generate() on an unseeded generator returned the {} bytes of its previous unseeded generate() call again (a fresh unseeded generator draws a new seed from the OS for every call)", i, o.len()),
+                                )
+                                .with_output(o),
+                            );
+                        }
+                        st.label("two unseeded generate() calls on one generator differ");
+                    }
+                    last_unseeded = Some(o.clone());
+                }
+            }
             continue;
         }
         let mut fresh = seq_build(sc);
@@ -262,7 +283,10 @@ pub fn run_c14(ctx: &Ctx) -> Outcome {
          APPEND/SETITEM/BUILD/APPENDS/SETITEMS/ADDITEMS byte (the shape in which aliasing could form a cycle). Plus, for the one long-running \
          process the tool ships (CLI batch mode): the peak resident set (/usr/bin/time %M) of a 300-pickle and of a 6 000-pickle (24 000 thorough) \
          batch of 1500..2500-opcode pickles, two protocols and worker counts; oracle: the difference stays below half of the bytes the larger \
-         batch wrote (>= 32 MiB), i.e. the process does not keep what it has generated.",
+         batch wrote (>= 32 MiB), i.e. the process does not keep what it has generated; and for the Python front end (the Atheris mutator): \
+         8 000 (60 000 thorough) mutate() / generate_from_bytes() calls on distinct inputs in one process - Python-level allocations (tracemalloc) \
+         and the resident set must not grow by more than half of the bytes returned (+16 MiB for the resident set), and 200 mutator objects \
+         used once and dropped must be collectable.",
     );
     let mut p = Profile::full();
     p.size = SizeMode::Mixed;
@@ -270,6 +294,7 @@ pub fn run_c14(ctx: &Ctx) -> Outcome {
     out.absorb(r);
     out.assumptions = vec!["allocations are counted per thread; a generator lives and dies on one thread".into()];
     crate::props::frontends::run_c14_cli(ctx, &mut out);
+    crate::props::frontends::run_c14_python(ctx, &mut out);
     out
 }
 
